@@ -53,6 +53,9 @@ pub struct Opts {
     pub max_other: usize,
     /// 1-4 intermediate Pages nodes, nested into each other (page trees up to 5 levels deep)
     pub deep_tree: bool,
+    /// bookmark tables as a program can leave them: entries under a parent id that does not exist (in the table, in no
+    /// list), entries listed twice (shared children, a root listed again), child / root ids that are not in the table
+    pub loose_bookmarks: bool,
 }
 
 pub struct GenDoc { pub doc: Document, pub leaves: Vec<ObjectId>, pub others: Vec<ObjectId> }
@@ -221,6 +224,36 @@ pub fn gen_doc(r: &mut Rng, o: &Opts) -> GenDoc {
             let parent = if !made.is_empty() && r.chance(1, 2) { Some(*r.pick(&made)) } else { None };
             let id = doc.add_bookmark(Bookmark::new(format!("b{}", i), [0.0, 0.0, 0.0], 0, page), parent);
             made.push(id);
+        }
+        if o.loose_bookmarks {
+            for i in 0..1 + r.usize(3) {
+                let page = if !leaves.is_empty() && r.chance(5, 6) { *r.pick(&leaves) } else { *r.pick(&all_ids) };
+                match r.below(4) {
+                    0 => { // parent id that does not exist: the entry is in the table and in no list
+                        let id = doc.add_bookmark(Bookmark::new(format!("loose{}", i), [0.0, 0.0, 0.0], 0, page), Some(7000 + r.below(5) as u32));
+                        // it may have children of its own
+                        if r.chance(1, 2) { let k = doc.add_bookmark(Bookmark::new(format!("loosekid{}", i), [0.0, 0.0, 0.0], 0, *r.pick(&all_ids)), Some(id)); made.push(k); }
+                    }
+                    1 => { // listed twice: as a child of another entry, or once more at the top
+                        let k = *r.pick(&made);
+                        if r.chance(1, 2) {
+                            // never below itself: the table stays acyclic (a cyclic one is outside the domain, the walk of the outline would not end)
+                            let h = *r.pick(&made);
+                            let mut below_k: Vec<u32> = vec![k]; let mut i2 = 0;
+                            while i2 < below_k.len() && below_k.len() < 1000 { if let Some(b) = doc.bookmark_table.get(&below_k[i2]) { for x in &b.children { if !below_k.contains(x) { below_k.push(*x); } } } i2 += 1; }
+                            if !below_k.contains(&h) { if let Some(b) = doc.bookmark_table.get_mut(&h) { let pos = r.usize(b.children.len() + 1); b.children.insert(pos, k); } }
+                        }
+                        else { let pos = r.usize(doc.bookmarks.len() + 1); doc.bookmarks.insert(pos, k); }
+                    }
+                    2 => { // a child id that is not in the table, before / between / after the real children
+                        let k = *r.pick(&made);
+                        if let Some(b) = doc.bookmark_table.get_mut(&k) { let pos = r.usize(b.children.len() + 1); b.children.insert(pos, 9000 + r.below(3) as u32); }
+                    }
+                    _ => { // a top-level id that is not in the table
+                        let pos = r.usize(doc.bookmarks.len() + 1); doc.bookmarks.insert(pos, 9100 + r.below(3) as u32);
+                    }
+                }
+            }
         }
         if o.malformed && r.chance(1, 2) {
             // a child id that is not in the table (update_bookmark_pages returns early)
@@ -534,6 +567,20 @@ fn run_case(c: &mut Ctx, stream: &str, g: &GenDoc, start: u32, mode: Mode) {
     if !doc.bookmark_table.is_empty() {
         let seq = sequential_pairs(doc, &g.leaves, start);
         let mut chain = 0; let mut other = 0;
+        {
+            // which entries the outline reaches, and how often (the check below does not depend on it)
+            let mut listed: BTreeMap<u32, usize> = BTreeMap::new();
+            let mut stack: Vec<u32> = doc.bookmarks.iter().rev().cloned().collect();
+            let mut steps = 0;
+            while let Some(id) = stack.pop() { steps += 1; if steps > 10_000 { break; }
+                if let Some(b) = doc.bookmark_table.get(&id) { let n = listed.entry(id).or_insert(0); *n += 1; if *n <= 2 { for k in b.children.iter().rev() { stack.push(*k); } } }
+                else { c.count("bookmark_list_id_not_in_table"); } }
+            for id in doc.bookmark_table.keys() { match listed.get(id) { None => c.count("bookmark_entry_not_in_outline"), Some(n) if *n > 1 => c.count("bookmark_entry_listed_twice"), _ => {} } }
+            if after.bookmark_table.len() != doc.bookmark_table.len() || after.bookmarks != doc.bookmarks
+                || doc.bookmark_table.iter().any(|(id, b)| after.bookmark_table.get(id).map(|a| a.children != b.children || a.title != b.title) != Some(false)) {
+                c.oracle_fail("bookmark-frame", "renumbering changed the outline structure (ids, children, titles)", case.clone());
+            }
+        }
         for (id, b) in doc.bookmark_table.iter() {
             let got = after.bookmark_table[id].page;
             let want = f(b.page);
@@ -633,13 +680,13 @@ fn maybe_loaded(c: &mut Ctx, r: &mut Rng, g: GenDoc) -> GenDoc {
 pub fn run(c: &mut Ctx) {
     c.rule = "random documents: 0-6 pages over a root and 0-2 intermediate Pages nodes (stream deep_nesting: 1-4, nested up to 5 levels) with page ids shuffled against page order, \
 sparse numbers, non-zero generations, up to 10 further objects (arrays/dicts/streams/top-level references) whose references are shared, cyclic, \
-from the trailer, dangling (out of range), unreachable holders; references inside 1..128 nested arrays / dictionaries / stream dictionaries that are the only way to their target (deep_nesting); references with a generation the stored object does not have (stale_generation); bookmarks via Document::add_bookmark; 1 in 4 saved and re-loaded; \
+from the trailer, dangling (out of range), unreachable holders; references inside 1..128 nested arrays / dictionaries / stream dictionaries that are the only way to their target (deep_nesting); references with a generation the stored object does not have (stale_generation); bookmarks via Document::add_bookmark (stream bookmarks_loose: entries under a parent that does not exist, entries listed twice, child / top-level ids missing from the table); 1 in 4 saved and re-loaded; \
 start in {0, 1, inside the id range, above it, large}. Non-trivial = the call returned (no panic) on a document; distinct by request text.".into();
     witnesses(c);
     // ---- graphs without bookmarks, all start values: full isomorphism oracle
     for i in 0..c.n(4000, 80000) {
         let Some(mut r) = c.case("graph", i) else { continue };
-        let o = Opts { pages_in_id_order: r.chance(1, 5), bookmarks: false, dangling: if r.chance(1, 2) { Dangling::Safe } else { Dangling::None }, malformed: false, max_other: 10, deep_tree: false };
+        let o = Opts { pages_in_id_order: r.chance(1, 5), bookmarks: false, dangling: if r.chance(1, 2) { Dangling::Safe } else { Dangling::None }, malformed: false, max_other: 10, deep_tree: false, loose_bookmarks: false };
         let g = gen_doc(&mut r, &o);
         let g = maybe_loaded(c, &mut r, g);
         let start = pick_start(&mut r, &g.doc, &[0, 0, 1, 1, 2, 3, 4]);
@@ -648,7 +695,7 @@ start in {0, 1, inside the id range, above it, large}. Non-trivial = the call re
     // ---- bookmarks where old and new numberings cannot chain (pages in id order; start 1 / above / large)
     for i in 0..c.n(1500, 30000) {
         let Some(mut r) = c.case("bookmarks", i) else { continue };
-        let o = Opts { pages_in_id_order: true, bookmarks: true, dangling: Dangling::Safe, malformed: false, max_other: 8, deep_tree: false };
+        let o = Opts { pages_in_id_order: true, bookmarks: true, dangling: Dangling::Safe, malformed: false, max_other: 8, deep_tree: false, loose_bookmarks: false };
         let g = gen_doc(&mut r, &o);
         let g = maybe_loaded(c, &mut r, g);
         let start = pick_start(&mut r, &g.doc, &[0, 2, 3]);
@@ -657,14 +704,23 @@ start in {0, 1, inside the id range, above it, large}. Non-trivial = the call re
     // ---- known-finding territory: bookmarks with overlapping numberings, dangling references in range
     for i in 0..c.n(300, 5000) {
         let Some(mut r) = c.case("bookmarks_overlap", i) else { continue }; // known territory
-        let o = Opts { pages_in_id_order: false, bookmarks: true, dangling: Dangling::None, malformed: false, max_other: 6, deep_tree: false };
+        let o = Opts { pages_in_id_order: false, bookmarks: true, dangling: Dangling::None, malformed: false, max_other: 6, deep_tree: false, loose_bookmarks: false };
         let g = gen_doc(&mut r, &o);
         let start = pick_start(&mut r, &g.doc, &[0, 1, 1, 2]);
         run_case(c, "bookmarks_overlap", &g, start, Mode::Full);
     }
+    // ---- bookmark tables with loose entries, entries listed twice, ids missing from the table; numberings overlap or not.
+    // The oracle wants EVERY entry of the table at rho(old page) (the statement of bookmarks_follow_rho).
+    for i in 0..c.n(500, 8000) {
+        let Some(mut r) = c.case("bookmarks_loose", i) else { continue };
+        let o = Opts { pages_in_id_order: r.chance(1, 2), bookmarks: true, dangling: if r.chance(1, 2) { Dangling::Safe } else { Dangling::None }, malformed: false, max_other: 6, deep_tree: false, loose_bookmarks: true };
+        let g = gen_doc(&mut r, &o);
+        let start = pick_start(&mut r, &g.doc, &[0, 1, 1, 1, 2, 3]);
+        run_case(c, "bookmarks_loose", &g, start, Mode::Full);
+    }
     for i in 0..c.n(300, 5000) {
         let Some(mut r) = c.case("dangling_in_range", i) else { continue };
-        let o = Opts { pages_in_id_order: r.chance(1, 2), bookmarks: false, dangling: Dangling::InRange, malformed: false, max_other: 8, deep_tree: false };
+        let o = Opts { pages_in_id_order: r.chance(1, 2), bookmarks: false, dangling: Dangling::InRange, malformed: false, max_other: 8, deep_tree: false, loose_bookmarks: false };
         let g = gen_doc(&mut r, &o);
         let start = pick_start(&mut r, &g.doc, &[0, 1, 2]);
         run_case(c, "dangling_in_range", &g, start, Mode::Full);
@@ -672,7 +728,7 @@ start in {0, 1, inside the id range, above it, large}. Non-trivial = the call re
     // ---- references at nesting depths up to 128 (the referenced object is reached through them only), deeper page trees
     for i in 0..c.n(250, 4000) {
         let Some(mut r) = c.case("deep_nesting", i) else { continue };
-        let o = Opts { pages_in_id_order: r.chance(1, 3), bookmarks: false, dangling: if r.chance(1, 2) { Dangling::Safe } else { Dangling::None }, malformed: false, max_other: 5, deep_tree: r.chance(1, 2) };
+        let o = Opts { pages_in_id_order: r.chance(1, 3), bookmarks: false, dangling: if r.chance(1, 2) { Dangling::Safe } else { Dangling::None }, malformed: false, max_other: 5, deep_tree: r.chance(1, 2), loose_bookmarks: false };
         let mut g = gen_doc(&mut r, &o);
         for d in add_deep_refs(&mut r, &mut g) { c.count(if d >= 126 { "deep_ref_depth_ge_126" } else if d >= 64 { "deep_ref_depth_ge_64" } else { "deep_ref_depth_lt_64" }); if d == 128 { c.count("deep_ref_depth_128"); } }
         let g = maybe_loaded(c, &mut r, g);
@@ -682,7 +738,7 @@ start in {0, 1, inside the id range, above it, large}. Non-trivial = the call re
     // ---- references whose generation disagrees with the stored object's: dangling, must stay so (or be a registered capture)
     for i in 0..c.n(250, 4000) {
         let Some(mut r) = c.case("stale_generation", i) else { continue };
-        let o = Opts { pages_in_id_order: r.chance(1, 3), bookmarks: false, dangling: Dangling::None, malformed: false, max_other: 8, deep_tree: r.chance(1, 3) };
+        let o = Opts { pages_in_id_order: r.chance(1, 3), bookmarks: false, dangling: Dangling::None, malformed: false, max_other: 8, deep_tree: r.chance(1, 3), loose_bookmarks: false };
         let mut g = gen_doc(&mut r, &o);
         let n = add_stale_refs(&mut r, &mut g);
         c.count_n("stale_generation_refs", n as u64);
@@ -692,7 +748,7 @@ start in {0, 1, inside the id range, above it, large}. Non-trivial = the call re
     // ---- outside the guarded domain (same number twice, page listed twice, missing bookmark ids): model = code, dense numbering
     for i in 0..c.n(1000, 20000) {
         let Some(mut r) = c.case("malformed", i) else { continue };
-        let o = Opts { pages_in_id_order: false, bookmarks: r.chance(1, 2), dangling: Dangling::InRange, malformed: true, max_other: 6, deep_tree: false };
+        let o = Opts { pages_in_id_order: false, bookmarks: r.chance(1, 2), dangling: Dangling::InRange, malformed: true, max_other: 6, deep_tree: false, loose_bookmarks: false };
         let g = gen_doc(&mut r, &o);
         let start = pick_start(&mut r, &g.doc, &[0, 1, 2, 3, 4]);
         run_case(c, "malformed", &g, start, Mode::SanityOnly);
@@ -701,7 +757,7 @@ start in {0, 1, inside the id range, above it, large}. Non-trivial = the call re
     // back = how far the last id start+n-1 stays below u32::MAX (negative: beyond)
     for (i, back) in [-3i64, -1, 0, 0, 1, 2, 40].iter().enumerate() {
         let Some(mut r) = c.case("u32_boundary", i as u64) else { continue };
-        let o = Opts { pages_in_id_order: false, bookmarks: false, dangling: Dangling::None, malformed: false, max_other: 3, deep_tree: false };
+        let o = Opts { pages_in_id_order: false, bookmarks: false, dangling: Dangling::None, malformed: false, max_other: 3, deep_tree: false, loose_bookmarks: false };
         let g = gen_doc(&mut r, &o);
         let n = g.doc.objects.len() as i64;
         let start = (u32::MAX as i64 - back - (n - 1)).clamp(0, u32::MAX as i64) as u32;
